@@ -2,6 +2,7 @@ import Bxh.Model.Exec
 import Bxh.Model.Router
 import Driver.Util
 import Bxh.Model.ProofGroups
+import Bxh.Gen.ProofFanout
 namespace Driver.ExecEngine
 open Bxh Bxh.Exec
 
@@ -277,7 +278,7 @@ def step (s : St) (ws : List String) : St × String :=
             [("adm0", genesisBalance - 8100000141750), ("adm1", genesisBalance + 47250), ("adm2", genesisBalance + 47250),
              ("adm3", genesisBalance + 2567250), ("ca9", 100000000000 - 210000)] } }
       else initNode
-    ({ cfg := cfg, node := n0, started := true, hist := [(n0.height, n0)], groups := if parseKV opts "proof" == some "serial" then 1 else 5 }, s!"ok h={n0.height}")
+    ({ cfg := cfg, node := n0, started := true, hist := [(n0.height, n0)], groups := if parseKV opts "proof" == some "serial" then 1 else Bxh.Gen.proofMaxGroup }, s!"ok h={n0.height}")
   | "block" :: rest => doBlock s rest
   | ["propose", _] => (s, "ok")       -- harness bookkeeping of proposal references: nothing for the model
   | "reorg" :: hh :: rest =>
